@@ -47,6 +47,11 @@ func (chkC01) CheckState(w *World, s *Snap, st State) []Viol {
 	for _, p := range s.Payments {
 		sum += i64(p.Balance)
 	}
+	for k, v := range s.BalX {
+		if strings.HasPrefix(k, w.Escrow.String()+"/") && v != 0 {
+			out = append(out, Viol{"C01.module-balance", "module-holds-foreign-denom", fmt.Sprintf("escrow module holds %d of %s which no record accounts for", v, k[len(w.Escrow.String())+1:])})
+		}
+	}
 	mod := s.Bal[w.Escrow.String()]
 	if mod != sum {
 		out = append(out, Viol{"C01.module-balance", "module-balance", fmt.Sprintf("escrow module holds %d but recorded balances sum to %d", mod, sum)})
@@ -129,6 +134,12 @@ func (chkC01) CheckTrans(t *TransCtx) []Viol {
 	}
 	if total != 0 {
 		out = append(out, Viol{"C01.supply", "supply", fmt.Sprintf("%s changed the total of all balances by %d", t.Act.Name, total)})
+	}
+	// no escrow record is denominated in anything but the network coin, so no other coin may move at all
+	for k, v := range t.Post.BalX {
+		if t.Pre.BalX[k] != v {
+			out = append(out, Viol{"C01.flows", "foreign-denom-moved:" + t.Act.Kind, fmt.Sprintf("%s moved %d of %s although no escrow record is denominated in it", t.Act.Name, v-t.Pre.BalX[k], shortKey(t.W, k))})
+		}
 	}
 	return out
 }
